@@ -1371,6 +1371,13 @@ namespace awkward {
         minlength = merged.get()->length();
       }
     }
+    if (for_each_field.empty()) {
+      // no fields to take the length from
+      minlength = length_;
+      for (auto array : headless) {
+        minlength += array.get()->length();
+      }
+    }
 
     ContentPtr next = std::make_shared<RecordArray>(Identities::none(),
                                                     parameters,
